@@ -58,9 +58,12 @@ func keyKind(c *Ctx, key ssa.Value) string {
 		if b, ok := call.Call.Value.(*ssa.Builtin); ok && b.Name() == "append" && isGlobalLoad(peel(call.Call.Args[0]), c.a.KeyValue) {
 			return "value"
 		}
-		// binary.BigEndian.AppendUint64(append(empty, prefix...), idx)
-		if strings.HasSuffix(calleeName(&call.Call), ".AppendUint64") && prefixedEmpty(c, call.Call.Args[len(call.Call.Args)-2]) {
-			return "value"
+		// binary.BigEndian.AppendUint64(append(empty, prefix...), idx), or with the prefix global itself as the base:
+		// binary.BigEndian.AppendUint64(prefix, idx) (the same bytes as append(prefix, buf[:]...) above)
+		if strings.HasSuffix(calleeName(&call.Call), ".AppendUint64") {
+			if base := call.Call.Args[len(call.Call.Args)-2]; prefixedEmpty(c, base) || isGlobalLoad(peel(base), c.a.KeyValue) {
+				return "value"
+			}
 		}
 		// a helper that builds the key: every return is a bitmap key
 		if _, _, vals, ok := resultOrigins(c.w, key); ok {
